@@ -111,6 +111,9 @@ func workerCmd(args []string) int {
 }
 
 func selfPath(race bool) string {
+	if v := os.Getenv("VERIF_BIN"); v != "" && !race {
+		return v // a differently instrumented build of this program (bin/coverage)
+	}
 	if race {
 		return filepath.Join(verifDir, ".build", "vcheck-race")
 	}
